@@ -64,7 +64,8 @@ def r33(ctx, res):
     fj = repo.fn("inter_convexpolyhedron_convexpolyhedron", "calc.intersection")
     # the selection is an if/elif chain, or a sequence of `if len(X) ...: return / raise` statements at body level:
     # either way the tests are evaluated in source order
-    chains = [x for x in fj.node.body if isinstance(x, ast.If)]
+    from ..astutil import unrolled_body
+    chains = [x for x in unrolled_body(fj.node, fj.params) if isinstance(x, ast.If)]
     rows = []
     for c in chains:
         rws, els = if_chain(c)
@@ -84,7 +85,7 @@ def r33(ctx, res):
             raise AnalysisError("%s: unrecognised selection test `%s`" % (fj.where(test), txt(test)))
         names = names[:1]  # a compound test is classified by the first collection it looks at
         ty = set()
-        for nm in ast.walk(test):
+        for nm in walk_local(fj.node):
             if isinstance(nm, ast.Name) and nm.id == names[0]:
                 for t in eng.types_at(fj, nm):
                     if isinstance(t, tuple) and t[0] in ("set", "list", "tuple"):
@@ -166,6 +167,8 @@ def run(ctx, res):
     )
     cf = run_confinement(ctx)
     hs = handlers_of(ctx, lambda t: t[0] in BODY and t[1] in BODY)
+    from ..confinement import numeric_rejections
+    res.count("numeric rejections", numeric_rejections(ctx, res, "R3.4", hs, "body x body handlers"))
     ctx.require(res, "R3.1", len(hs), 3, "body x body handlers")
     total = 0
     for fi in hs:
